@@ -27,6 +27,7 @@ META["technique"] += '; narrowing-before-use dataflow for values that may be Und
 META["level_text"] += " Also decided, as necessary conditions of the second sentence (R5, R6): _eq/_lt/_contains resolve __liquid__() before Python comparison can consult an undefined operand's own __eq__; lookups decide 'missing' from the failed key, never from a nil/false value."
 META["technique"] += "; sibling agreement between the undefined classes (a relaxed hook must have the default's body, operands of and/or chains compared as sets)"
 META["technique"] += '; truth-table complement check of reject against where'
+META["technique"] += "; nil tests on elements in filter comprehensions cover undefined and the map placeholder"
 META["level_text"] += " Also decided (R8): every hook that a strict undefined class answers without raising answers exactly as the default Undefined does."
 
 U = "liquid2.undefined.Undefined"
@@ -540,3 +541,33 @@ def run(prog: Program, res: Result) -> None:  # noqa: PLR0912, PLR0915
     from checks.shared import check_reject_complements_where
 
     check_reject_complements_where(prog, res, "C16.R12")
+    # ------------------------------------------------------------------ R13 an undefined element is a nil element
+    res.rule("C16.R13", "a missing value behaves as nil where filters drop or select nil elements: a comprehension condition in liquid2/builtin/filters that compares an *element* of the input (the comprehension's own target, or a lambda result) with None also tests is_undefined() of it - `map: i => i.t` hands on an Undefined for every item without `t`, and `compact` must drop it as it drops nil")
+    n13 = 0
+    for mod13 in sorted(prog.modules.values(), key=lambda m: m.relpath):
+        if not mod13.relpath.startswith("liquid2/builtin/filters/"):
+            continue
+        for comp in ast.walk(mod13.tree):
+            if not isinstance(comp, (ast.ListComp, ast.GeneratorExp, ast.SetComp)):
+                continue
+            for g in comp.generators:
+                targets = {x.id for x in ast.walk(g.target) if isinstance(x, ast.Name)}
+                for cond in g.ifs:
+                    nil_tests = [c for c in ast.walk(cond) if isinstance(c, ast.Compare) and len(c.ops) == 1 and isinstance(c.ops[0], (ast.Is, ast.IsNot)) and isinstance(c.left, ast.Name) and c.left.id in targets and isinstance(c.comparators[0], ast.Constant) and c.comparators[0].value is None]
+                    for c in nil_tests:
+                        n13 += 1
+                        fi13 = prog.enclosing_function(mod13, comp)
+                        q13 = fi13.qualname if fi13 else "<module>"
+                        paired = any(isinstance(u, ast.Call) and isinstance(u.func, ast.Name) and u.func.id == "is_undefined" and u.args and isinstance(u.args[0], ast.Name) and u.args[0].id == c.left.id for cc in g.ifs for u in ast.walk(cc))
+                        what = f"{q13}: the nil test on element `{c.left.id}` also covers undefined and map's null placeholder"
+                        # map stands in a `_Null` object (== nil, but not None) for a missing property: an identity test alone keeps it
+                        placeholder = any(isinstance(u, ast.Call) and isinstance(u.func, ast.Name) and u.func.id == "isinstance" and len(u.args) == 2 and isinstance(u.args[0], ast.Name) and u.args[0].id == c.left.id and "_Null" in norm(u.args[1]) for cc in g.ifs for u in ast.walk(cc))
+                        is_lambda_result = isinstance(g.iter, ast.Call) and (dotted(g.iter.func) or "").endswith("zip")  # results of key.map(): Undefined for a missing property, never the placeholder
+                        if paired and not placeholder and not is_lambda_result:
+                            res.fail("C16.R13", file=mod13.relpath, line=c.lineno, qualname=q13, construct=f"{q13}: element `{c.left.id}` compared with None by identity, the map placeholder not recognised", message=f"{q13} keeps or drops elements by `{norm(cond, 60)}`: `map` stands in a _Null object for every item without the mapped property - equal to nil but not None - so `{{{{ items | map: 't' | compact | size }}}}` counts the items whose `t` is missing although it drops those whose `t` is nil", what=what)
+                            continue
+                        if paired:
+                            res.ok("C16.R13", f"{mod13.relpath}:{c.lineno} {q13}", what, f"`{norm(cond, 60)}`")
+                        else:
+                            res.fail("C16.R13", file=mod13.relpath, line=c.lineno, qualname=q13, construct=f"{q13}: element `{c.left.id}` compared with None but not with undefined", message=f"{q13} keeps or drops elements by `{norm(cond, 50)}`: an Undefined element (what `map: i => i.t` yields for an item without `t`) is not None, so a missing value is kept where nil is dropped - `{{{{ items | map: i => i.t | compact | size }}}}` counts the items whose `t` is missing", what=what)
+    res.floor("C16.R13", "nil tests on elements in filter comprehensions", n13, 3)
